@@ -592,7 +592,7 @@ class ActionTypeHint(Action):
                     if orig_val == "-" and isinstance(getattr(ex, "parent", None), PathError):
                         raise ex
                     try:
-                        if isinstance(orig_val, str):
+                        if isinstance(orig_val, str) or (isinstance(orig_val, NestedArg) and isinstance(orig_val.val, str)):
                             val = adapt_typehints(orig_val, self._typehint, default=self.default, **kwargs)
                             ex = None
                     except ValueError:
